@@ -4225,5 +4225,11 @@ theorem killLayer_detaches {h : Heap} (w : Wired h) {l s f : Id} (c : LayerCtx h
   · simp only [Heap.kidsOf, get_unlist, if_true, get_endSelf, if_neg hls, e2s', Option.map_some]
     simp
 
+theorem owned_node {h : Heap} (w : Wired h) {x p : Id} {np : Node} (ho : h.ownerOf x = some p)
+    (ep : h.get p = some np) : ∃ nx, h.get x = some nx ∧ allowed np.kind nx.kind = true := by
+  obtain ⟨nx, np', ex, _, ep', _, ha⟩ := ownerOf_node w.toStruct ho
+  rw [ep] at ep'; cases ep'
+  exact ⟨nx, ex, ha⟩
+
 end Parents
 end DefconModel
